@@ -148,7 +148,7 @@ Qed.
 
 Theorem accept_decl_iff_valid : forall d, accept_decl d = valid_decl d.
 Proof.
-  intros d. unfold accept_decl, valid_decl. f_equal. f_equal.
+  intros d. unfold accept_decl, valid_decl. f_equal. f_equal. f_equal.
   apply forallb_ext'. intros x. apply accept_field_iff_valid.
 Qed.
 
